@@ -51,8 +51,15 @@ class OneCellHooks:
     def call(self, eng, st, name, recv, args, kw, node):
         short = name.split('.')[-1]
         if short == 'project' and recv is not None:
-            return E.Obj(eng.fresh('mu2', V), cls='Factor')
+            return E.Obj(eng.fresh('mu2', V), cls='Factor', ghost={'projection_of': (recv, args[0] if args else None)})
         if short == 'datavector' and recv is not None:
+            # the vector the query matrix multiplies is the clique marginal projected on the measurement's own attribute tuple
+            # (also when that tuple is a permutation of the whole clique: Q and y follow the measurement's order)
+            src = (getattr(recv, 'ghost', None) or {}).get('projection_of')
+            ok = E.FALSE
+            if src is not None and src[1] is not None and 'mu' in st.env and 'proj' in st.env:
+                ok = z3.And(eng.to_V(src[0]) == eng.to_V(st.env['mu']), eng.to_V(src[1]) == eng.to_V(st.env['proj']))
+            eng.oblige(st, 'site/query-applies-to-marginal-projected-on-the-measurement-attributes@L%d' % node.lineno, ok, kind='call-site')
             return E.Num(eng.fresh('x', R), npy=True)         # the one cell of the projected marginal
         if name == 'abs' and len(args) == 1 and isinstance(args[0], E.Num):
             a = args[0].real()
